@@ -673,7 +673,7 @@ impl Engine for C14 {
             None
         };
         let mut idx = sink.shard;
-        if let Mode::Describe(i) = sink.mode {
+        if let Some(i) = sink.single() {
             idx = i;
         }
         while idx < total {
@@ -700,7 +700,7 @@ impl Engine for C14 {
                     }
                 },
             );
-            if let Mode::Describe(_) = sink.mode {
+            if sink.single().is_some() {
                 break;
             }
             idx += sink.nshards;
